@@ -80,6 +80,24 @@ def unit_report(name: str, source: str, extra_bound=()):
             imports.append((mod, node.lineno, list(self.guard)))
 
     V().visit(tree)
+    for node in ast.walk(tree):
+        if isinstance(node, ast.Try) and any(h.type is not None and "ImportError" in ast.unparse(h.type) for h in node.handlers):
+            def bound(stmts):
+                out = set()
+                for st in stmts:
+                    for n in ast.walk(st):
+                        if isinstance(n, (ast.Import, ast.ImportFrom)):
+                            out |= {(a.asname or a.name).split(".")[0] for a in n.names}
+                        elif isinstance(n, ast.Name) and isinstance(n.ctx, ast.Store):
+                            out.add(n.id)
+                return out
+            tb = bound(node.body)
+            for h in node.handlers:
+                if h.type is not None and "ImportError" in ast.unparse(h.type):
+                    missing = tb - bound(h.body)
+                    used = {n.id for n in ast.walk(tree) if isinstance(n, ast.Name) and isinstance(n.ctx, ast.Load)}
+                    for name_ in sorted(missing & used):
+                        problems.append(f"{name}:{node.lineno}: name {name_!r} is bound only when the guarded import succeeds (no fallback binding) but is used")
     std = sys.stdlib_module_names
     for mod, lineno, guard in imports:
         top = mod.split(".")[0]
@@ -201,8 +219,29 @@ st = gw.remote_status()
 T.append([st.numchannels, st.execmodel])
 if bare and T[0][0] != "no execnet":
     T.insert(0, "NOT-BARE")
+# the kill path: a worker that ignores interrupts must still go away with terminate(timeout)
+import time, signal
+ch = gw.remote_exec("import os, signal, time\nsignal.signal(signal.SIGINT, signal.SIG_IGN) if os.getpid() and __import__('threading').current_thread() is __import__('threading').main_thread() else None\nchannel.send(os.getpid())\nwhile True:\n    try:\n        time.sleep(0.2)\n    except KeyboardInterrupt:\n        pass")
+wpid = ch.receive(30)
+t0 = time.time()
+try:
+    g.terminate(1.0)
+    term = "ok"
+except BaseException as e:
+    term = "%s: %s" % (type(e).__name__, str(e).strip().splitlines()[-1][:100])
+dt = time.time() - t0
+time.sleep(0.3)
+def alive(p):
+    try:
+        return open("/proc/%d/stat" % p).read().split()[2] != "Z"
+    except OSError:
+        return False
+stuck = alive(wpid)
+if stuck:
+    try: os.kill(wpid, signal.SIGKILL)
+    except OSError: pass
+T.append(["terminate", term, dt < 12, "worker-gone" if not stuck else "WORKER-LEFT-BEHIND"])
 print(json.dumps(T, default=repr))
-g.terminate(5)
 '''
 
 
